@@ -77,7 +77,13 @@ func vRunSvcScenario(sc vSvcScenario) (*vSvcRun, []vDMViolation) {
 	owner := sdk.AccAddress([]byte("verif-tenant-0000000")).String()
 	lease := mtypes.LeaseID{Owner: owner, DSeq: 21, GSeq: 1, OSeq: 1, Provider: prov}
 	bus := pubsub.NewBus()
-	defer bus.Close()
+	svcEnded := false
+	defer func() {
+		// see vDMState.cleanup: the bus of a service that has not ended is left open
+		if svcEnded {
+			bus.Close()
+		}
+	}()
 	ctx, cancel := context.WithCancel(context.Background())
 	defer cancel()
 	cl := &vSvcClient{vScriptedCluster: vScriptedCluster{Client: NullClient(), g: g}}
@@ -256,6 +262,7 @@ func vRunSvcScenario(sc vSvcScenario) (*vSvcRun, []vDMViolation) {
 	cancel()
 	select {
 	case <-svc.Done():
+		svcEnded = true
 	case <-time.After(vSvcTimeout):
 		note("service did not shut down")
 	}
